@@ -2,7 +2,7 @@
 import json, os
 from . import core
 
-TRACE_SPEC = {"reader": ("WSReaderTrace.tla", "WSReaderTrace.cfg"), "writer": ("WSWriterTrace.tla", "WSWriterTrace.cfg")}
+TRACE_SPEC = {"reader": ("WSReaderTrace.tla", "WSReaderTrace.cfg"), "writer": ("WSWriterTrace.tla", "WSWriterTrace.cfg"), "conc": ("WSConcTrace.tla", "WSConcTrace.cfg")}
 
 
 import glob as _glob, importlib as _imp
